@@ -175,6 +175,113 @@ theorem c16_totp_once (last t1 t2 : Int) (hc : t2 < t1 + 2) :
     have : t1 + 2 > t2 := by omega
     simp [spacing, this] at h2
 
+/-! ### one TOTP code, any number of simultaneous presentations, any schedule
+
+`c16_totp_once` is about the test-and-set alone.  The request as a whole is load / gate+evaluate / save
+(`KM.Conc.tStep`): the profile, with the counter of the last accepted code, is read *before* the gate and
+saved without a version check, so what makes the code one-time under concurrency is that the record with
+the first request's `lastCheckTime` is still there when a request holding a stale profile reaches the gate. -/
+
+def TInv (base : Int) (s : TSt) : Prop :=
+  s.pending.length + s.honoured.length ≤ 1 ∧ (∀ x ∈ s.pending, base ≤ x.2) ∧
+  (0 < s.pending.length + s.honoured.length → ∃ t, s.lastCheck = some t ∧ base ≤ t)
+
+theorem gateOpen_window (base now t : Int) (h1 : now < base + 2) (h2 : base ≤ t) :
+    gateOpen (some t) now = false := by
+  have : t + 2 > now := by omega
+  simp [gateOpen, spacing, this]
+
+theorem tStep_inv (base c : Int) (s : TSt) (e : TEv) (hw : e.inWindow base) (h : TInv base s) :
+    TInv base (tStep true c s e) := by
+  obtain ⟨h1, h2, h3⟩ := h
+  cases e with
+  | load r => exact ⟨h1, h2, h3⟩
+  | gate r now =>
+    obtain ⟨hb, hn⟩ := hw
+    simp only [tStep]
+    split
+    · exact ⟨h1, h2, h3⟩
+    · split
+      · rename_i hopen
+        -- the gate was open: nobody is pending or honoured
+        have hz : s.pending.length + s.honoured.length = 0 := by
+          rcases Nat.eq_zero_or_pos (s.pending.length + s.honoured.length) with hz | hp
+          · exact hz
+          · obtain ⟨t, ht, hbt⟩ := h3 hp
+            rw [ht, gateOpen_window base now t hn hbt] at hopen
+            cases hopen
+        have hp0 : s.pending = [] := List.eq_nil_of_length_eq_zero (by omega)
+        have hh0 : s.honoured.length = 0 := by omega
+        split
+        · refine ⟨by simpa using h1, h2, fun _ => ⟨now, rfl, hb⟩⟩
+        · refine ⟨?_, ?_, fun _ => ⟨now, rfl, hb⟩⟩
+          · simp [hp0, hh0]
+          · intro x hx
+            simp [hp0] at hx
+            subst hx
+            exact hb
+      · exact ⟨h1, h2, h3⟩
+  | save r =>
+    simp only [tStep]
+    split
+    · exact ⟨h1, h2, h3⟩
+    · rename_i t hl
+      have hlen : s.pending.length ≠ 0 := by
+        intro h0
+        have := List.eq_nil_of_length_eq_zero h0
+        rw [this] at hl
+        simp [List.lookup] at hl
+      match hp : s.pending, hl, h1, h2 with
+      | [x], hl, h1, h2 =>
+        have hh0 : s.honoured.length = 0 := by simp at h1; omega
+        have hx : (r == x.1) = true ∧ x.2 = t := by
+          cases hrx : (r == x.1) <;> simp [List.lookup, hrx] at hl
+          exact ⟨rfl, hl⟩
+        have hr : x.1 = r := by have := hx.1; simp at this; exact this.symm
+        refine ⟨?_, ?_, fun _ => ⟨t, rfl, ?_⟩⟩
+        · simp [List.filter, notReq, hr, hh0]
+        · simp [List.filter, notReq, hr]
+        · rw [← hx.2]; exact h2 x (by simp)
+      | [], hl, _, _ => simp [List.lookup] at hl
+      | _ :: _ :: _, _, h1, _ => simp at h1; omega
+
+
+theorem tRun_inv (base c : Int) (evs : List TEv) (s : TSt) (hw : ∀ e ∈ evs, e.inWindow base)
+    (h : TInv base s) : TInv base (tRun true c s evs) := by
+  induction evs generalizing s with
+  | nil => exact h
+  | cons e rest ih =>
+    exact ih (tStep true c s e) (fun e' he' => hw e' (List.mem_cons_of_mem _ he'))
+      (tStep_inv base c s e (hw e (List.mem_cons_self ..)) h)
+
+/-- **One code, honoured at most once under every schedule**: any number of requests presenting the same
+valid code, their load / gate / save steps interleaved in any order (including a request parked between its
+load and its gate while another runs to completion), all spacing tests within one window shorter than the
+spacing — at most one request is answered "valid".  No bound on the number of requests or events. -/
+theorem c16_totp_schedule_once (base c stored : Int) (lastCheck : Option Int) (evs : List TEv)
+    (hw : ∀ e ∈ evs, e.inWindow base) :
+    (tRun true c (TSt.init stored lastCheck) evs).honoured.length ≤ 1 := by
+  have h := tRun_inv base c evs (TSt.init stored lastCheck) hw
+    ⟨by simp [TSt.init], by simp [TSt.init], by simp [TSt.init]⟩
+  have := h.1
+  omega
+
+/-- **The record is load-bearing** (proved negation): if the success path leaves no rate-limit record behind,
+the schedule "B loads, A loads, A passes the gate, A saves, B passes the gate, B saves" at one instant honours
+the code twice — the stored counter alone does not serialise the two requests. -/
+theorem c16_totp_record_needed_witness :
+    (tRun false 7 (TSt.init 0 none) [.load 1, .load 0, .gate 0 100, .save 0, .gate 1 100, .save 1]).honoured = [1, 0] ∧
+    (∀ e ∈ [TEv.load 1, .load 0, .gate 0 100, .save 0, .gate 1 100, .save 1], e.inWindow 100) := by
+  refine ⟨by decide, ?_⟩
+  intro e he
+  simp at he
+  rcases he with rfl | rfl | rfl | rfl | rfl | rfl <;> simp [TEv.inWindow]
+
+example : (tRun true 7 (TSt.init 0 none) [.load 1, .load 0, .gate 0 100, .save 0, .gate 1 100, .save 1]).honoured = [0] := by
+  decide
+example : (tRun true 7 (TSt.init 0 none) [.load 0, .gate 0 100, .save 0, .load 1, .gate 1 103, .save 1]).honoured = [0] := by
+  decide
+
 /-! ### a hardware-token challenge is honoured at most once -/
 
 def ChInv (s : ChSt) : Prop :=
